@@ -19,7 +19,7 @@ SEARCH_AOBJ = $(patsubst engines/%.cpp,$(B)/asan/%.o,$(SEARCH_SRC))
 .PHONY: all prod asan clean
 all: prod asan
 asan: $(B)/copymove_asan $(B)/search_asan $(B)/multidim_asan $(B)/mapped_asan $(B)/dynamic_asan $(B)/cabi_asan
-prod: $(B)/search $(B)/segmentation $(B)/dynamic $(B)/multidim $(B)/mapped $(B)/cabi $(B)/reject
+prod: $(B)/conc_mc $(B)/conc_tsan $(B)/search $(B)/segmentation $(B)/dynamic $(B)/multidim $(B)/mapped $(B)/cabi $(B)/reject
 
 $(STAMP):
 	@mkdir -p $(B) && touch $@
@@ -78,6 +78,23 @@ $(B)/copymove: $(B)/prod/copymove.o
 
 $(B)/reject: $(B)/prod/reject.o $(B)/prod/cpgm.o
 	$(CXX) $(PROD) $^ -o $@
+
+# concurrency engine: the zoo is compiled by clang with TSan instrumentation; conc links it against mc/vrt.cpp (own runtime),
+# conc_tsan against the real ThreadSanitizer runtime
+TSANFLAGS = -std=gnu++17 -march=native -O1 -g -DNDEBUG -fno-access-control -DPGM_INDEX_VERIF -I$(REPO)/include -I. -w -fsanitize=thread
+$(B)/conc/zoo.o: engines/conc_zoo.cpp engines/conc_zoo.hpp $(STAMP)
+	@mkdir -p $(dir $@)
+	$(CLANGXX) $(TSANFLAGS) -c $< -o $@
+$(B)/conc/vrt.o: mc/vrt.cpp mc/vrt.hpp
+	@mkdir -p $(dir $@)
+	$(CXX) -std=gnu++17 -O1 -g -fno-builtin -fno-tree-loop-distribute-patterns -fno-omit-frame-pointer -c $< -o $@
+$(B)/conc/main.o: engines/conc_main.cpp mc/common.hpp mc/vrt.hpp engines/conc_zoo.hpp
+	@mkdir -p $(dir $@)
+	$(CXX) -std=gnu++17 -O1 -g -I. -w -c $< -o $@
+$(B)/conc_mc: $(B)/conc/main.o $(B)/conc/zoo.o $(B)/conc/vrt.o
+	$(CXX) $^ -o $@ -pthread -ldl -Wl,--wrap=__cxa_guard_acquire -Wl,--wrap=__cxa_guard_release -Wl,--wrap=__cxa_guard_abort
+$(B)/conc_tsan: engines/conc_tsan_main.cpp $(B)/conc/zoo.o
+	$(CLANGXX) $(TSANFLAGS) $^ -o $@ -pthread
 
 $(B)/search_asan: $(SEARCH_AOBJ)
 	$(CXX) $(ASAN) $^ -o $@
